@@ -844,3 +844,66 @@ def id_universe_rule(ctx, rid, f=None):
     else:
         raise AnalysisError("idiom changed: result-file test in missing_results (%d found)" % len(tests_))
     return rr
+
+
+# ------------------------------------------------------------------ missing_results looks at the files in every call
+def missing_fresh_rule(ctx, rid, only_if_reaper_uses=False):
+    """Every call of Crop.missing_results looks at the result files: on each path to a return the enumeration of batch
+    ids against the file system is passed.  A path that returns a remembered answer, guarded by in-memory state only
+    (counts, attributes), is reported: the set of finished batches can change while every count stays the same
+    (delete_all / re-sow / another batch grown).  A guard that itself consults the file system is exit 2."""
+    from ..cfg import build_cfg
+    rr = ctx.rule(rid, "missing_results consults the result files in every call (no answer remembered from an earlier call)", floor=1)
+    prog = ctx.prog
+    crop = prog.need_cls(CROP + ".Crop")
+    mr = crop.methods.get("missing_results")
+    need(mr is not None, "anchor lost: Crop.missing_results")
+    if only_if_reaper_uses:
+        init = prog.need_func(CROP + ".Reaper.__init__")
+        uses = any(isinstance(c, ast.Call) and isinstance(c.func, ast.Attribute) and c.func.attr == "missing_results" for c in ast.walk(init.node))
+        if not uses:
+            rr.ok("not applicable on this tree: the Reaper tests each result file itself and does not ask missing_results")
+            return rr
+    g = build_cfg(mr.node)
+    ctx.touch(mr, g)
+    FS = ("os.path.isfile", "os.path.exists", "os.listdir", "os.scandir", "glob.glob", "glob", "glob.iglob")
+
+    def looks(n):
+        if n.kind not in ("stmt", "test", "for") or isinstance(n.ast, (ast.FunctionDef, ast.ClassDef)):
+            return False
+        # a `for` header stands for its iterable only (the body has nodes of its own)
+        for x in (ast.walk(n.ast.iter) if n.kind == "for" else ast.walk(n.ast)):
+            if isinstance(x, ast.Call) and (norm(x.func) in FS or (isinstance(x.func, ast.Name) and x.func.id in ("range", "filter"))):
+                return True
+        return False
+    look = {n.id for n in g.nodes if looks(n)}
+    need(look, "idiom changed: missing_results has no statement that enumerates the batch ids against the files")
+    rets = [n for n in g.nodes if n.kind == "stmt" and isinstance(n.ast, ast.Return)]
+    need(rets, "idiom changed: missing_results has no return")
+    free = g.reachable(blocked_nodes=look)
+    by = [r for r in rets if r.id in free and r.id not in look]
+    if not by:
+        rr.ok("every path to a return of missing_results passes the look at the files (%d statement(s))" % len(look))
+        return rr
+    tests = [t for t in g.nodes if t.kind == "test" and t.id in free and any(l_ in g.reachable(start=t.id) for l_ in look)]
+    txts = []
+    for t in tests:
+        tx = norm(t.ast)
+        seen_ = set()
+        todo_ = [x.id for x in ast.walk(t.ast) if isinstance(x, ast.Name)]
+        while todo_:
+            nm_ = todo_.pop()
+            if nm_ in seen_:
+                continue
+            seen_.add(nm_)
+            for _, v_ in assignments_to(mr, nm_):
+                if v_ is not None:
+                    tx += " <- " + norm(v_)
+                    todo_ += [x.id for x in ast.walk(v_) if isinstance(x, ast.Name)]
+        txts.append(tx)
+    if tests and not any(k in tx for tx in txts for k in ("os.", "glob", "stat(", "getmtime", "listdir", "scandir")):
+        rr.bad(ctx.finding(rid, mr, by[0].ast, "missing_results returns `%s` on a path that does not look at the result files, decided by in-memory state only (`%s`): the set of finished batches can change while the counts stay the same (delete_all / re-sow / grow another batch), and the earlier answer is then given -- finished batches reported missing and missing ones finished" % (
+            norm(by[0].ast.value)[:50] if by[0].ast.value is not None else "None", "; ".join(txts)[:120]), construct="missing-remembered"), "fresh look")
+    else:
+        raise AnalysisError("idiom changed: missing_results can return without looking at the result files (guards: %s); whether the remembered answer is still valid there is not analysed" % "; ".join(txts)[:160])
+    return rr
